@@ -5,7 +5,9 @@ HARNESS = "c19"
 STALE_RERUN = True   # operands also re-run as stale external polynomials (see check)
 LEVEL = "other"
 LEAKS_ARE_VIOLATIONS = True
-RULE = ("pdst/vdst/idst: operation x operands x prior content of the output (constant, polynomial in other variables, "
+RULE = ("sdst: every binary operation of the scalar layer (dyadic, rational, integer in Z and Z_M) x operands of different / equal "
+        "exponents, denominators, signs x output fresh / used / == first input / == second input / == both; "
+        "pdst/vdst/idst: operation x operands x prior content of the output (constant, polynomial in other variables, "
         "other value kinds, point/proper interval) x aliasing pattern; rc: random histories of new/attach/detach/delete inside the "
         "contract, fully released at the end, followed by a LeakSanitizer check; plus a sanitizer sweep that runs the C drivers "
         "of all other properties on their generated cases")
@@ -95,6 +97,138 @@ def rc_history(rng):
     return "rc " + " ".join(ops)
 
 
+def _mag(rng):
+    """positive integer: small, around a limb boundary, or many limbs"""
+    k = rng.random()
+    if k < 0.45:
+        return rng.randint(1, 40)
+    if k < 0.75:
+        return 2 ** rng.choice([31, 32, 63, 64, 65, 127, 128]) + rng.randint(-3, 3)
+    return rng.randint(10**20, 10**45)
+
+
+def scalar_alias_cases(rng, tier):
+    """Structured class: every binary operation of the scalar layer (dyadic, rational, integer; value level through vdst)
+    x operands of different / equal exponents, denominators, signs, sizes.  The harness runs each case with the output being
+    a fresh object, a previously used object, the first input, the SECOND input, and both inputs at once."""
+    from math import gcd
+    cases = []
+    rep = 1 if tier == "quick" else 12
+    sgns = [(1, 1), (1, -1), (-1, 1), (-1, -1)]
+    # --- dyadic rationals a/2^n: (exponent of a, exponent of b); None = a fresh random exponent
+    EXP = [(0, 1), (1, 0), (1, 4), (4, 1), (0, 64), (65, 1), (2, 70), (3, 3), (0, 0), (1, 2), (None, None), (63, 64), (7, 5)]
+    def dyv(sg, e):
+        a = sg * _mag(rng)
+        if e > 0:
+            a |= 1            # normalised: odd numerator over a positive exponent
+        return a
+    i = 0
+    for op in ("add", "sub", "mul"):
+        for _ in range(52 * rep):
+            ea, eb = EXP[i % len(EXP)]
+            sa, sb = sgns[(i // len(EXP)) % 4]
+            i += 1
+            if ea is None:
+                ea, eb = rng.randint(0, 130), rng.randint(0, 130)
+            a, b = dyv(sa, ea), dyv(sb, eb)
+            k = rng.random()
+            if k < 0.08:
+                a, ea = 0, 0
+            elif k < 0.16:
+                b, eb = 0, 0
+            elif k < 0.6 and ea == eb and ea > 0 and op != "mul":
+                # equal exponents: cancellation that leaves many trailing zero bits (the result is re-normalised)
+                c = (rng.randint(-9, 9) * 2 + 1) * 2 ** rng.choice([1, 2, max(1, ea - 1), ea, ea + 3, 64])
+                b = c - a if op == "add" else a - c
+            ue = rng.choice([0, 1, 5, 64, 100])
+            u = dyv(rng.choice([1, -1]), ue)
+            cases.append("sdst d %s %d %d %d %d %d %d" % (op, a, ea, b, eb, u, ue))
+    # --- rationals (canonical): denominators equal / one divides the other / coprime / 1 / powers of two
+    def canon(n, d):
+        g = gcd(n, d)
+        return (n // g, d // g)
+    DEN = ["same", "int_a", "int_b", "divides", "coprime", "pow2", "big", "neg_same"]
+    i = 0
+    for op in ("add", "sub", "mul", "div"):
+        for _ in range(32 * rep):
+            kind = DEN[i % len(DEN)]
+            sa, sb = sgns[(i // len(DEN)) % 4]
+            i += 1
+            d1 = rng.choice([2, 3, 6, 7, 12, 2**rng.randint(1, 70), _mag(rng)])
+            if kind == "same" or kind == "neg_same":
+                d2 = d1
+            elif kind == "int_a":
+                d1, d2 = 1, rng.choice([2, 3, 8, 2**64 + 13])
+            elif kind == "int_b":
+                d2 = 1
+            elif kind == "divides":
+                d2 = d1 * rng.choice([2, 3, 5, 2**40])
+            elif kind == "pow2":
+                d1, d2 = 2**rng.randint(1, 5), 2**rng.randint(6, 70)
+                if rng.random() < 0.5:
+                    d1, d2 = d2, d1
+            elif kind == "big":
+                d1, d2 = _mag(rng) * 2 + 1, _mag(rng) * 2 + 1
+            else:
+                d2 = rng.choice([5, 11, 13, 2**61 - 1])
+            x = canon(sa * _mag(rng), d1)
+            y = canon(sb * _mag(rng), d2)
+            if kind == "neg_same":
+                y = (-x[0], x[1]) if rng.random() < 0.5 else x
+            if rng.random() < 0.07:
+                x = (0, 1)
+            if rng.random() < 0.07 and op != "div":
+                y = (0, 1)
+            u = canon(rng.choice([1, -1]) * _mag(rng), rng.choice([1, 3, 13, 2**65]))
+            cases.append("sdst q %s %d %d %d %d %d %d" % (op, x[0], x[1], y[0], y[1], u[0], u[1]))
+    # --- integers in Z and in Z_M (operands in the symmetric range, biased to its ends)
+    RINGS = [0, 0, 0, 2, 3, 7, 12, 101, 2**32, 2**64 + 13, 2**89 - 1]
+    def rep_in(m):
+        if m == 0:
+            return rng.choice([1, -1]) * _mag(rng) if rng.random() < 0.9 else 0
+        lb, ub = -((m - 1) // 2), m // 2
+        if rng.random() < 0.4:
+            return rng.choice([lb, ub, min(lb + 1, ub), max(ub - 1, lb), 0, 1, -1 if lb <= -1 else 0])
+        return rng.randint(lb, ub)
+    i = 0
+    for op in ("add", "sub", "mul", "addmul", "submul", "divexact", "divZ", "remZ", "gcd", "lcm"):
+        for _ in range(22 * rep):
+            m = 0 if op in ("divZ", "remZ", "gcd", "lcm") else RINGS[i % len(RINGS)]
+            i += 1
+            a, b, u = rep_in(m), rep_in(m), rep_in(m)
+            if op == "divexact":
+                if m == 0:
+                    b = b or 3
+                    a = b * rep_in(0)
+                else:
+                    # units only: the quotient is then unique (also for a / a)
+                    units = [x for x in (rep_in(m) for _ in range(40)) if gcd(x, m) == 1]
+                    if len(units) < 2:
+                        continue
+                    b, q = units[0], units[1]
+                    a = (q * b) % m
+                    if a > m // 2:
+                        a -= m
+            elif op in ("divZ", "remZ"):
+                b = b or -5
+                if rng.random() < 0.3:
+                    a = b * rng.randint(-9, 9)
+            elif op in ("gcd", "lcm") and rng.random() < 0.5:
+                g = _mag(rng)
+                a, b = g * rng.randint(-30, 30), g * rng.randint(-30, 30)
+            cases.append("sdst z %s %d %d %d %d" % (op, m, a, b, u))
+    # --- value level: every ordered pair of scalar values of different kinds / exponents / signs
+    SV = ["z:0", "z:-7", "z:3", "d:1/1", "d:-5/3", "d:7/2", "d:-1/70", "q:1/3", "q:-22/7", "q:5/6",
+          "z:-123456789012345678901", "d:36893488147419103233/65"]
+    pairs = [(a, b) for a in SV for b in SV]
+    for op in ("add", "sub", "mul", "div"):
+        for a, b in (pairs if tier != "quick" else rng.sample(pairs, 40)):
+            if op == "div" and b == "z:0":
+                continue
+            cases.append("vdst %s %s %s %s" % (op, a, b, rng.choice(VALS + ["-inf", "+inf"])))
+    return cases
+
+
 def generate(rng, tier):
     n = 1500 if tier == "quick" else 20000
     cases = []
@@ -175,11 +309,15 @@ def generate(rng, tier):
             cases.append("idst %s %s %s %s %d" % (op, iv(), iv(), rng.choice(["point", "full", "proper"]), rng.randint(0, 4)))
         else:
             cases.append(rc_history(rng))
+    # structured scalar-layer aliasing class LAST: the random stream of the classes above does not shift
+    cases += scalar_alias_cases(rng, tier)
     return cases
 
 
 def tag(case):
     t = case.split()
+    if t[0] == "sdst":
+        return "sdst:%s:%s" % (t[1], t[2])
     return t[0] + (":" + t[1] if t[0] not in ("rc", "vlist", "isub") else "")
 
 
@@ -200,6 +338,24 @@ def post_run(vlib, clib, seed, tier, log):
         pid = os.path.basename(f)[:-3]
         if pid == "C19":
             continue
+        # A driver that cannot be built or run must not silently drop out of the sweep (its scratch library may have been
+        # evicted from the build cache by parallel checks): rebuild the library and try once more, then REPORT it.
+        err = None
+        for attempt in (0, 1):
+            try:
+                if attempt:
+                    clib = vlib.build_clib()
+                vlib.build_cdriver(getattr(importlib.import_module(pid), "HARNESS", pid.lower()), clib)
+                err = None
+                break
+            except Exception as e:
+                err = e
+        if err is not None:
+            cov[pid] = "not run: %r" % (err,)
+            log("sanitizer sweep: the %s driver could not be built: %r" % (pid, err))
+            viol.append({"property": "C19", "kind": "sweep-not-run", "tag": "sweep-not-run:" + pid, "harness_of": pid,
+                         "case": "(the %s driver could not be built for the sanitizer sweep)" % pid, "stderr_tail": repr(err)[-2500:]})
+            continue
         try:
             G = importlib.import_module(pid)
             rng = random.Random(seed * 7919 + int(pid[1:]))
@@ -216,8 +372,11 @@ def post_run(vlib, clib, seed, tier, log):
             minputs = [c + (" => " + o if o is not None else "") for c, o in zip(cases, outs)]
             mouts, _, _ = vlib.run_driver(mexe, [pid], minputs, timeout=900)
             bad, _, _ = vlib.compare_outputs(G, cases, outs, mouts, crashes)
-        except Exception as e:  # a harness that does not build/run is that property's problem, but say so
+        except Exception as e:  # a harness that does not run is that property's problem, but say so - loudly
             cov[pid] = "not run: %r" % (e,)
+            log("sanitizer sweep: the %s driver was not run: %r" % (pid, e))
+            viol.append({"property": "C19", "kind": "sweep-not-run", "tag": "sweep-not-run:" + pid, "harness_of": pid,
+                         "case": "(the %s driver was not run in the sanitizer sweep)" % pid, "stderr_tail": repr(e)[-2500:]})
             continue
         cov[pid] = {"cases": len(cases), "crashes": len(crashes), "leak_reports": len(leaks), "disagreements": len(bad)}
         fid_of = getattr(G, "finding_id", None)
